@@ -39,38 +39,47 @@ func runC15(e *Env) {
 func c15Gate(e *Env, s *Sched) {
 	r := e.R
 	r.Rule("C15.gate", "RC", "launch reachable only with max<=0 or count<max", 1)
-	loops := ir.Loops(s.Loop)
-	inner := ir.InnermostLoop(loops, s.Launch.Block())
-	if inner == nil {
+	if s.GateLoop == nil {
 		r.Unknown("loop: launch inside the per-node loop", e.InstrPos(s.Launch), "launch is not inside a loop")
 		return
 	}
+	inner := s.GateLoop
 	var body *ssa.BasicBlock
 	for _, sb := range inner.Header.Succs {
 		if inner.Blocks[sb] {
 			body = sb
 		}
 	}
-	dnf, ok := ir.ReachingCondition(body, s.Launch.Block(), 32)
+	dnf, ok := ir.ReachingCondition(body, s.GateSite.Block(), 32)
 	if !ok || len(dnf) == 0 {
 		r.Unknown("loop: reaching condition of the launch", e.InstrPos(s.Launch), "reaching condition could not be computed (too many disjuncts or unreachable)")
 		return
 	}
-	counter := e.FnQuiet(schedRel, "(*Scheduler).runningCount")
 	isMax := func(v ssa.Value) bool { return e.IsFieldRead(v, nil, "maxActiveRuns") }
+	// the counter, by role: the int-valued repository function whose result the limit is compared with
 	isCount := func(v ssa.Value) bool {
 		c, ok := ir.Resolve(v).(*ssa.Call)
-		return ok && counter != nil && c.Call.StaticCallee() == counter
+		if !ok || c.Call.StaticCallee() == nil || !e.P.Funcs[c.Call.StaticCallee()] {
+			return false
+		}
+		f := c.Call.StaticCallee()
+		if f.Signature.Results().Len() != 1 || f.Signature.Results().At(0).Type().String() != "int" {
+			return false
+		}
+		s.Counter = f
+		return true
 	}
-	ff := e.Facts(s.Loop)
+	ff := e.Facts(s.GateFn)
 	allOK := true
 	var facts []string
-	var expanded [][]ir.Lit
+	var expanded [][]ir.NLit
 	for _, cj := range dnf {
-		expanded = append(expanded, ff.ExpandDNFRegion(body, []ir.Lit(cj))...)
+		for _, conj := range ff.ExpandDNFRegion(body, []ir.Lit(cj)) {
+			// a limit test extracted into a boolean helper is expanded into its return conditions
+			expanded = append(expanded, e.expandHelperCalls(ir.NormalizeAll(conj), 0)...)
+		}
 	}
-	for _, cj := range expanded {
-		lits := ir.NormalizeAll(cj)
+	for _, lits := range expanded {
 		good := false
 		for _, l := range lits {
 			if l.Kind != "cmp" {
@@ -93,7 +102,7 @@ func c15Gate(e *Env, s *Sched) {
 				}
 			}
 			// count < max
-			if l.Op == token.LSS && isCount(l.X) && isMax(l.Y) {
+			if l.Op == token.LSS && isMax(l.Y) && isCount(l.X) {
 				good = true
 			}
 		}
@@ -109,7 +118,10 @@ func c15Gate(e *Env, s *Sched) {
 func c15CountTable(e *Env, s *Sched) {
 	r := e.R
 	r.Rule("C15.count-table", "DCS+ENUM", "runningCount increments exactly under status==Running, over all nodes", 2)
-	fn := e.Fn(schedRel, "(*Scheduler).runningCount")
+	fn := s.Counter // by role: the function whose result the launch gate compares with maxActiveRuns
+	if fn == nil {
+		fn = e.Fn(schedRel, "(*Scheduler).runningCount")
+	}
 	if fn == nil {
 		return
 	}
@@ -120,7 +132,13 @@ func c15CountTable(e *Env, s *Sched) {
 	}
 	l := loops[0]
 	p, okp := e.C.PathOf(l.Ranged)
-	r.Check(okp && p.Suffix("nodes"), "runningCount: ranges over the graph's nodes", e.Pos(fn.Pos()), "the counter does not iterate over all graph nodes")
+	allNodes := false
+	for _, an := range e.graphRoles().AllNodes {
+		if okp && p.Suffix(an) {
+			allNodes = true
+		}
+	}
+	r.Check(allNodes, "runningCount: ranges over the graph's nodes", e.Pos(fn.Pos()), "the counter does not iterate over all graph nodes")
 	var acc *ssa.Phi
 	for _, in := range l.Header.Instrs {
 		if ph, ok := in.(*ssa.Phi); ok && ph.Type().String() == "int" && ph.Comment != "rangeindex" {
@@ -203,44 +221,33 @@ func c15RunningWriters(e *Env, s *Sched) {
 			if !ok || k != running || ev.Init {
 				continue
 			}
+			// a store made in a helper of the loop / the worker is judged in the helper
+			if len(ev.Via) > 0 && (s.inLoop(ev.Via[0]) || s.inWorker(ev.Via[0])) {
+				continue
+			}
 			pos := e.InstrPos(ev.Site)
 			switch {
-			case f == s.Loop && sameNode(ev.Root, s.LoopNode):
+			case s.inLoop(f) && sameNode(ev.Root, s.LoopNode):
 				r.OK("loop: flips the launched node to Running", pos, "")
-			case f == s.Loop && s.isHandlerNode(ev.Root):
+			case s.inLoop(f) && s.isHandlerNode(ir.Deep(ev.Root)):
 				r.OK("loop: handler node set Running by the handler runner", pos, "handler nodes are not graph nodes and run after Wait")
-			case f != s.Loop && f != s.Worker && len(ev.Via) == 0:
-				// direct store in a helper: its callers must be the loop with a handler node
+			case !s.inLoop(f) && !s.inWorker(f):
+				// a helper outside the inlined sets: its callers must be the loop with a handler node
 				okH := false
 				if prm, isP := ev.Root.(*ssa.Parameter); isP {
 					okH = true
-					idx := -1
-					for i, p := range f.Params {
-						if p == prm {
-							idx = i
-						}
-					}
+					idx := paramIndex(prm)
 					cs := e.StaticCallSites(f)
-					if len(cs) == 0 {
+					if len(cs) == 0 || idx < 0 {
 						okH = false
 					}
 					for _, ci := range cs {
-						if ci.Parent() != s.Loop || !s.isHandlerNode(ci.Common().Args[idx]) {
+						if !s.inLoop(ci.Parent()) || idx >= len(ci.Common().Args) || !s.isHandlerNode(ir.Deep(ci.Common().Args[idx])) {
 							okH = false
 						}
 					}
 				}
 				r.Check(okH, ShortFn(f)+": sets Running on handler nodes only", pos, "a function other than the scheduling loop marks a graph node running")
-			case f != s.Loop && f != s.Worker:
-				// lifted duplicate of a helper's store: judged at the helper
-				okH := false
-				if prm, isP := ev.Root.(*ssa.Parameter); isP {
-					_ = prm
-					okH = true
-				}
-				if !okH {
-					r.Bad(ShortFn(f)+": marks a node running", pos, "a function other than the scheduling loop marks a node running")
-				}
 			default:
 				r.Bad(ShortFn(f)+": marks a node running", pos, "running is written outside the scheduling loop's flip: the running count seen by the limit test no longer matches launches")
 			}
